@@ -60,6 +60,7 @@ fn main() {
         "C12" => checks::c12::run(&tier, only.as_ref()),
         "C12-WORKER" => checks::c12::worker_main(&args[2..]),
         "C05" => checks::c05::run(&tier, only.as_ref()),
+        "C04" => checks::c04::run(&tier, only.as_ref()),
         "C08" => checks::c08::run(&tier, only.as_ref()),
         "C03" => checks::c03::run(&tier, only.as_ref()),
         _ => {
